@@ -368,24 +368,37 @@ def run(ctx):
     groups.append(("tiled_rasters", jobs, ctx.pick(4, 8)))
 
     # ------------------------------------------------------------------ R: a Dask-backed sample of the same rasters
-    # (the property is about every backend): 2-3 chunkings each, always a NON-default sun position, cell sizes via
+    # (the property is about every backend): five chunkings each, always a NON-default sun position, cell sizes via
     # `res` and via coordinates; judged by the same clauses against the definition (not against NumPy)
     jobs = []
     suns = [(315, 45), (90, 60), (10, 5), (180, 89), (271, 0), (0, 70), (45, 33)]
-    for t in range(ctx.pick(50, 200)):
-        if t % 3 == 0:
+    def strips(n, t):
+        """split n cells into 2-3 unequal strips (every strip at least 1 cell)"""
+        if n < 2:
+            return [n]
+        if n == 2:
+            return [1, 1]
+        cuts = [[1, n - 1], [n - 1, 1], [n // 2, n - n // 2], [1, 1, n - 2] if n > 2 else [1, n - 1], [2, n - 2]]
+        return cuts[t % len(cuts)]
+
+    for t in range(ctx.pick(40, 180)):
+        if t % 4 == 0:
             rows = tile([window(rng.randrange(4 ** 9), 4) for _ in range(6)], 2, 3)
-        elif t % 3 == 1:
-            rows = tile([window(rng.randrange(4 ** 9), 4) for _ in range(2)], 1, 2)
+        elif t % 4 == 1:
+            rows = tile([window(rng.randrange(4 ** 9), 4) for _ in range(3)], 1, 3)          # 3 x 9
+        elif t % 4 == 2:
+            rows = tile([window(rng.randrange(4 ** 9), 4) for _ in range(3)], 3, 1)          # 9 x 3
         else:
             H, W = rng.choice([(4, 7), (5, 5), (7, 4), (3, 8)])
             rows = sprinkle_nan(rng, rand_raster(rng, H, W, "smallint"), rng.choice([0, 0.05, 0.15]))
         H, W = len(rows), len(rows[0])
         az, alt = suns[t % len(suns)]
-        uneven = [[[2, H - 2], [1, 3, W - 4] if W > 4 else [1, W - 1]], [[H - 1, 1], [W - 2, 2]]][t % 2]
-        # single block, 1-cell chunks (on the 6x9 tilings: 1-cell rows x 3-cell columns - 54 blocks are costly), uneven
+        uneven = [[[2, H - 2], [1, 3, W - 4] if W > 4 else [1, W - 1]], [[H - 1, 1], [W - 2, 2] if W > 2 else [W]]][t % 2]
+        # single block; 1-cell chunks (on the 6x9 tilings 1-cell rows x 3-cell columns - 54 blocks are costly); uneven
+        # 2-D split; STRIPS: one chunk along y with several along x (full-height column strips) and one chunk along
+        # x with several along y (full-width row strips) - a fast path keyed on one axis only shows up there
         one = [[1] * H, [1] * W] if H * W <= 35 else [[1] * H, [3] * (W // 3)]
-        for ck in ([[H], [W]], one, uneven):
+        for ck in ([[H], [W]], one, uneven, [[H], strips(W, t)], [strips(H, t + 1), [W]]):
             j = f_job(rows, t, az=az, alt=alt)
             j["chunks"] = ck
             jobs.append(j)
